@@ -26,6 +26,12 @@ chk("C07","CONSNET","fault_enumeration","crash before every durable write of eve
     "Each durable write (WAL record, signer-file step, block-store and state write) of each honest node in happy / two-round / lock-then-commit executions is a crash point; after the real restart the round state must equal the reference state after the last completely logged input, no signature may contradict an earlier one, nobody may panic, and all nodes must finish with equal blocks; thorough adds torn WAL tails and rotation at every record boundary.",
     "Crash model = process death between system calls (no torn writes except the explicit torn-tail cases). Non-light WAL. Harness restores the correct cached proposer after a reload (known finding) so that later differences stay visible.")
 
+chk("C02","CONSNET","model_checking","Byzantine proposer offers every single-mutation block from a generated list on the real state machines; independent from-scratch audit of every block any honest node stores",
+    "Every single-field corruption of an honestly built block (header fields, data, embedded last commit; raw and with the covering hash recomputed) is proposed by the Byzantine proposer at height 1 and at height 2, alone and with one network rule; every stored block of every execution (also of the C01 rule menu) is re-verified from scratch: height, predecessor id, app/receipts hash of the prior state, data/last-commit/validator-set hash, seen commit and embedded last commit signature by signature, single round, > 2/3 power.", CN_NOTE+" Validator set constant over the explored heights.")
+chk("C08","CONSNET","exploration","exhaustive boundary-value and byte-level input enumeration through the real ConsensusReactor.Receive into a real ConsensusState in 8 receiver states; reference validity predicate; worker-death attribution",
+    "All nine consensus message types with every exported field set in turn to every boundary value (also re-signed by the Byzantine validator where it is the legitimate signer), every valid message on every wrong channel, every single-byte substitution and truncation of every valid encoding and every 1-byte (thorough: 2-byte) string on every channel are fed to a real node in each of eight consensus states; a panic on the consensus goroutine is a violation, a message that fails validation must leave the round state exactly as it was, and the node must still finish the next height.",
+    "Covers what reaches the consensus goroutine (part i). Gossip-goroutine poisoning through peer state, block-sync, mempool and pex channels are not driven by this check (see DESIGN).")
+
 NOT_YET = "check not built yet in this round (planned in DESIGN.md §5); not claimed until its quick check passes on the unchanged tree"
 props=[json.loads(l)['id'] for l in open('/verif/properties.jsonl')]
 m={"version":1,
